@@ -54,6 +54,12 @@ CHECKS = {
             'exactly n_test+3, iroas=0, over-full fixed groups, random) are run through both real searches on fresh '
             'objects; any exception other than ValueError, or more aggregation events than a polynomial / design-count '
             'bound, is a violation; the outcome histogram per class is reported.', '§5 C09'),
+    'C15': ('reference-model monitor: pure-Python pivot (math.fsum) vs the real TBRMMData attributes and aggregates',
+            'Generated long-format frames (shuffled rows, int / string IDs, ISO or datetime dates, missing cells) with '
+            'eligibility tables absent / equal / subset / superset of the data are given to the real TBRMMData; df rows, '
+            'columns, values, row order, geo_share, assignable, the reconciliation outcome (rows dropped vs ValueError) '
+            'and, under random ordered geo_index lists and tuples, positional geo_assignments and aggregate_* over random '
+            'index sets are compared with a dictionary-based pivot that does not use pandas.', '§5 C15'),
 }
 
 NOT_YET = {}
